@@ -148,6 +148,21 @@ def _num(p, e, v):
     return p.coordinate(names[0] if len(names) == 1 else v)
 
 
+def _with_steps_bound(k, thunk):
+    import logging
+    import smoothmath._private.base_expression.expression as be
+    old = getattr(be, "REDUCTION_STEPS_BOUND", None)
+    if old is not None:
+        be.REDUCTION_STEPS_BOUND = k
+    logging.disable(logging.CRITICAL)
+    try:
+        return thunk()
+    finally:
+        logging.disable(logging.NOTSET)
+        if old is not None:
+            be.REDUCTION_STEPS_BOUND = old
+
+
 def _after_asexp(obj):
     obj.as_expression()
     return obj
@@ -202,6 +217,9 @@ ROUTES = {
     "asexp_fwd": lambda sm, E, e, v, p: isinstance(sm.Partial(e, v).as_expression(), sm.Expression),
     "asexp_rev": lambda sm, E, e, v, p: isinstance(sm.Differential(e, compute_early=True).component(v).as_expression(), sm.Expression),
     "asexp_deriv": lambda sm, E, e, v, p: isinstance(sm.Derivative(e).as_expression(), sm.Expression),
+    # the rewriter's give-up path (step budget forced to 2): as_expression() must still hand back an expression
+    "asexp_giveup": lambda sm, E, e, v, p: _with_steps_bound(2, lambda: isinstance(sm.Partial(e, v).as_expression(), sm.Expression)),
+    "norm_giveup": lambda sm, E, e, v, p: _with_steps_bound(3, lambda: isinstance(e._normalize(), sm.Expression)),
     # simplification
     "norm": lambda sm, E, e, v, p: e._normalize().at(p),
 }
